@@ -70,6 +70,9 @@ type Nest struct {
 	At    int   `json:"at"`
 	Feed  *Feed `json:"feed"`
 	Inner *Nest `json:"inner,omitempty"`
+	// Propagate: the action does not recover from a failing nested parse - the panic goes on through the enclosing parse
+	// to the caller, who re-initialises the parser before the next parse (PopContex is never reached)
+	Propagate bool `json:"propagate,omitempty"`
 }
 
 type Job struct {
@@ -107,6 +110,9 @@ type ParseResult struct {
 	TraceCapped bool `json:"trace_capped,omitempty"`
 	// Inner: parses that ran nested inside this one (in order of completion); NestSkipped: a nested parse was planned but
 	// the parser offers no PushContex/PopContex
+	// TraceAt[k]: how many bytes of this parse's trace were on the output when token k was requested ("parses" job with
+	// the trace on)
+	TraceAt     []int         `json:"trace_at,omitempty"`
 	Inner       []ParseResult `json:"inner,omitempty"`
 	NestSkipped bool          `json:"nest_skipped,omitempty"`
 }
@@ -126,6 +132,8 @@ type JobResult struct {
 	SoakRounds    int             `json:"soak_rounds,omitempty"`
 	SoakDeviation int             `json:"soak_deviation,omitempty"` // index of the first round whose result differs from round 0 (0: none)
 	Trans         []int           `json:"trans,omitempty"`
+	// MatrixMissing (TypeScript): the generated file has no table called StateActionArray
+	MatrixMissing bool `json:"matrix_missing,omitempty"`
 	// TransMissing (TypeScript): the generated file has no function called translate (a private helper)
 	TransMissing bool           `json:"trans_missing,omitempty"`
 	Consts       map[string]int `json:"consts,omitempty"`
@@ -150,10 +158,17 @@ type env struct {
 	budget  int
 	yield   func(kind int) // nil when not interleaving
 	parser  *Parser
+	traceAt []int // trace capture: bytes of this parse's trace on the output at each token request
 	nest    *Nest // pending nested parse of this parse
 	inner   []ParseResult
 	skipped bool
 }
+
+// trace capture of the "parses" job: the file stdout is redirected to and where the running parse's trace starts
+var (
+	ptraceFile  *os.File
+	ptraceStart int64
+)
 
 var cur *env // the environment of the running parse (exactly one goroutine runs at a time)
 
@@ -190,6 +205,11 @@ func hookNext(input string, incoming int) (int, int) {
 	atomic.StoreInt64(&lastHook, time.Now().UnixNano())
 	cur.inHash = (cur.inHash ^ uint64(uint32(incoming))) * 1099511628211
 	e := cur
+	if ptraceFile != nil && len(e.traceAt) < 20000 {
+		if st, err := ptraceFile.Stat(); err == nil {
+			e.traceAt = append(e.traceAt, int(st.Size()-ptraceStart))
+		}
+	}
 	e.steps++
 	if e.steps > e.budget {
 		panic(budgetPanic{})
@@ -249,6 +269,10 @@ func runNested(e *env, n *Nest) {
 	cur = ie
 	pr := runParse(p, nil, ie)
 	cur = e
+	if n.Propagate && pr.Outcome != "accept" && pr.Outcome != "nilret" {
+		e.inner = append(e.inner, pr)
+		panic("Grammar error (nested parse, not recovered by the action): " + pr.Msg)
+	}
 	p.Pop()
 	beginParse() // the enclosing parse is the running one again (watchdog baseline)
 	e.inner = append(e.inner, pr)
@@ -270,6 +294,7 @@ func runParse(p *Parser, c interface{}, e *env) (res ParseResult) {
 		res.Steps = e.steps
 		res.InHash = fmt.Sprintf("%x", e.inHash)
 		res.Inner, res.NestSkipped = e.inner, e.skipped
+		res.TraceAt = e.traceAt
 		if x := recover(); x != nil {
 			switch v := x.(type) {
 			case budgetPanic:
@@ -430,7 +455,11 @@ func runJob(j *Job) *JobResult {
 			}
 			e := &env{feed: f, budget: budgetOf(f)}
 			cur = e
+			if tmp != nil {
+				ptraceFile, ptraceStart = tmp, off
+			}
 			pr := runParse(p, c, e)
+			ptraceFile = nil
 			if tmp != nil {
 				if st, err := tmp.Stat(); err == nil && st.Size() > off {
 					n := st.Size() - off
@@ -515,6 +544,39 @@ func runJob(j *Job) *JobResult {
 					break
 				}
 			}
+		}
+	case "soak-nested":
+		// failed nested parses that nobody pops, by the thousand: feeds = [enclosing, nested-bad, nested-good]. Every
+		// round re-initialises; rounds with the good nested input (first, every 2048th, last) must all give the same result.
+		if p.Push == nil || p.Object || len(j.Feeds) < 3 {
+			r.Err = "soak-nested needs a global-form parser with PushContex/PopContex"
+			break
+		}
+		var firstJSON []byte
+		good := func() ParseResult {
+			p.Init(nil)
+			e := &env{feed: &j.Feeds[0], budget: budgetOf(&j.Feeds[0]), parser: p, nest: &Nest{At: 0, Feed: &j.Feeds[2]}}
+			cur = e
+			return runParse(p, nil, e)
+		}
+		for i := 0; i < j.N; i++ {
+			if i%2048 == 0 || i == j.N-1 {
+				pr := good()
+				b, _ := json.Marshal(pr)
+				if firstJSON == nil {
+					firstJSON = b
+					r.Parses = append(r.Parses, pr)
+				} else if string(b) != string(firstJSON) {
+					r.Parses = append(r.Parses, pr)
+					r.SoakDeviation = i
+					break
+				}
+			}
+			p.Init(nil)
+			e := &env{feed: &j.Feeds[0], budget: budgetOf(&j.Feeds[0]), parser: p, nest: &Nest{At: 0, Feed: &j.Feeds[1], Propagate: true}}
+			cur = e
+			runParse(p, nil, e)
+			r.SoakRounds++
 		}
 	case "interleave":
 		runInterleaved(p, j, r, budgetOf)
